@@ -98,6 +98,12 @@ def apply(st, op, checks=('C16', 'C17')):
                 if k == kopt_before:
                     # the incumbent slot itself was overwritten: kopt may now designate a worse value (documented exception)
                     st.incumbent_overwritten = True
+            for r2 in op.get('extra', []) or []:
+                # further samples of the new point, added straight away - the only way solve() ever calls add_new_sample
+                r2 = _arr(r2)
+                M.add_new_sample(k, rvec_extra=r2)
+                slot['samples'].append(r2.copy())
+                st.incumbent_overwritten = False
         elif kind == 'add_new_sample':
             k = op['k']
             r = _arr(op['r'])
@@ -500,6 +506,8 @@ def gen_example(rnd, data_faults, checks, max_steps=50):
                 k = rnd.randrange(M.npt())
             next_eval += 1
             op = dict(op='change_point', k=k, x=point(), r=resid(), eval_num=next_eval)
+            if 'C16' in checks and 'C17' not in checks and rnd.random() < 0.3:
+                op['extra'] = [resid() for _ in range(rnd.randint(1, 3))]      # unequal sample counts across the point set
         elif rule == 'add_new_sample':
             op = dict(op='add_new_sample', k=rnd.randrange(M.npt()), r=resid())
         elif rule == 'add_new_point':
